@@ -720,4 +720,179 @@ theorem lambda_default (dim : Nat) (h : 1 ≤ dim) :
 
 example : (1 : Nat) ≤ 2 := by decide
 
+/-! ### 9. Several strategies, the caller's parameter objects, and re-parameterisation
+
+`Core/Cma.lean` (`World`, `Step`): a program holding several strategies and the objects it passed to their
+constructors.  The theorems say that a strategy's trajectory is a function of ITS OWN history only and that no
+step of the library changes a caller object.  They are immediate for a value-semantics model; their content is the
+reading they fix for the correspondence stream `alias` of harness/props/c13.py, which runs the implementation with
+shared / reused / caller-modified parameter objects and compares every strategy with its own separate replay. -/
+
+/-- **update_frame.**  `strats[k].update(pop)` changes position `k` only: every other strategy, the number of
+strategies and all parameter objects of the caller are what they were; position `k` holds `update` of its own
+previous state. -/
+theorem update_frame {α K : Type} [RealLike α] [LT K] [DecidableLT K]
+    (eigh : List (List α) → List α × List (List α)) (argsort : List α → List Nat)
+    (w : World α) (k : Nat) (pop : List (K × List α)) :
+    let w' := Step.apply eigh argsort w (Step.update k pop)
+    w'.args = w.args ∧ w'.strats.length = w.strats.length ∧
+    (∀ j, j ≠ k → w'.strats[j]? = w.strats[j]?) ∧
+    w'.strats[k]? = (w.strats[k]?).map (fun s => update eigh argsort s pop) := by
+  intro w'
+  refine ⟨rfl, ?_, ?_, ?_⟩
+  · simp [w', Step.apply]
+  · intro j hj
+    simp only [w', Step.apply]
+    exact List.getElem?_modify_ne _ _ (Ne.symm hj)
+  · simp only [w', Step.apply]
+    rw [List.getElem?_modify_eq]; rfl
+
+/-- no step of the library changes a parameter object of the caller: only the caller's own `setArg` does -/
+theorem args_frame {α K : Type} [RealLike α] [LT K] [DecidableLT K]
+    (eigh : List (List α) → List α × List (List α)) (argsort : List α → List Nat)
+    (w : World α) (steps : List (Step α K))
+    (h : ∀ st ∈ steps, ∀ i a, st ≠ Step.setArg i a) :
+    (runSteps eigh argsort w steps).args = w.args := by
+  induction steps generalizing w with
+  | nil => rfl
+  | cons st rest ih =>
+    simp only [runSteps, List.foldl_cons]
+    have hrest : ∀ st ∈ rest, ∀ i a, st ≠ Step.setArg i a := fun s hs => h s (List.mem_cons_of_mem _ hs)
+    have := ih (Step.apply eigh argsort w st) hrest
+    simp only [runSteps] at this
+    rw [this]
+    cases st with
+    | update k pop => rfl
+    | relambda k lam o => rfl
+    | setArg i a => exact absurd rfl (h _ List.mem_cons_self i a)
+    | spawn i =>
+      simp only [Step.apply]
+      cases w.args[i]? <;> rfl
+
+/-- no step removes a strategy -/
+theorem step_length_le {α K : Type} [RealLike α] [LT K] [DecidableLT K]
+    (eigh : List (List α) → List α × List (List α)) (argsort : List α → List Nat)
+    (w : World α) (st : Step α K) : w.strats.length ≤ (Step.apply eigh argsort w st).strats.length := by
+  cases st with
+  | update k pop => simp [Step.apply]
+  | relambda k lam o => simp [Step.apply]
+  | setArg i a => simp [Step.apply]
+  | spawn i =>
+    simp only [Step.apply]
+    cases w.args[i]? <;> simp
+
+/-- one step, seen from strategy `j`: its own `onState` if the step addresses `j`, nothing otherwise -/
+theorem step_local {α K : Type} [RealLike α] [LT K] [DecidableLT K]
+    (eigh : List (List α) → List α × List (List α)) (argsort : List α → List Nat)
+    (w : World α) (st : Step α K) (j : Nat) (hj : j < w.strats.length) :
+    (Step.apply eigh argsort w st).strats[j]?
+      = (w.strats[j]?).map (fun s => if st.touches j then st.onState eigh argsort s else s) := by
+  have hsome : w.strats[j]? = some w.strats[j] := List.getElem?_eq_getElem hj
+  cases st with
+  | update k pop =>
+    simp only [Step.apply, Step.touches, Step.onState, List.getElem?_modify, hsome]
+    by_cases hk : k = j <;> simp [hk]
+  | relambda k lam o =>
+    simp only [Step.apply, Step.touches, Step.onState, List.getElem?_modify, hsome]
+    by_cases hk : k = j <;> simp [hk]
+  | setArg i a => simp [Step.apply, Step.touches, hsome]
+  | spawn i =>
+    simp only [Step.apply, Step.touches]
+    cases w.args[i]? with
+    | none => simp [hsome]
+    | some a => simp [List.getElem?_append_left hj, hsome]
+
+example : (1 : Nat) < ({ args := [], strats := [exState, exState] } : World ℝ).strats.length := by simp
+
+/-- **strategies_independent.**  Whatever the program does — updates of the strategies in any interleaving,
+re-parameterisations, the caller overwriting the objects he passed to the constructors, further strategies built
+from those objects — the state of strategy `j` at the end is the result of applying, to ITS OWN initial state, the
+steps addressed to `j`, in their order.  Steps addressed to other strategies, caller writes and restarts drop out. -/
+theorem strategies_independent {α K : Type} [RealLike α] [LT K] [DecidableLT K]
+    (eigh : List (List α) → List α × List (List α)) (argsort : List α → List Nat)
+    (w : World α) (steps : List (Step α K)) (j : Nat) (hj : j < w.strats.length) :
+    (runSteps eigh argsort w steps).strats[j]?
+      = (w.strats[j]?).map (fun s =>
+          (steps.filter (fun st => st.touches j)).foldl (fun s st => st.onState eigh argsort s) s) := by
+  induction steps generalizing w with
+  | nil => simp [runSteps]
+  | cons st rest ih =>
+    have hj' : j < (Step.apply eigh argsort w st).strats.length :=
+      lt_of_lt_of_le hj (step_length_le eigh argsort w st)
+    have h := ih (Step.apply eigh argsort w st) hj'
+    simp only [runSteps, List.foldl_cons] at h ⊢
+    rw [h, step_local eigh argsort w st j hj, List.getElem?_eq_getElem hj]
+    by_cases ht : st.touches j = true
+    · simp [List.filter_cons, ht]
+    · simp [List.filter_cons, ht]
+
+example : (0 : Nat) < ({ args := [], strats := [exState] } : World ℝ).strats.length := by simp
+
+/-- **restart_fresh.**  A strategy built from parameter object `i` after the program has run (restart) starts
+from exactly the state a strategy built from it at the beginning would have had, unless the CALLER overwrote an
+object himself: `init` reads values, and nothing the library did in between changed them. -/
+theorem restart_fresh {α K : Type} [RealLike α] [LT K] [DecidableLT K]
+    (eigh : List (List α) → List α × List (List α)) (argsort : List α → List Nat)
+    (w : World α) (steps : List (Step α K)) (i : Nat) (a : Args α)
+    (h : ∀ st ∈ steps, ∀ i a, st ≠ Step.setArg i a) (ha : w.args[i]? = some a) :
+    let w1 := runSteps eigh argsort w steps
+    (Step.apply eigh argsort w1 (Step.spawn i : Step α K)).strats
+      = w1.strats ++ [init eigh argsort a.centroid a.sigma a.o] := by
+  intro w1
+  have hargs : w1.args = w.args := args_frame eigh argsort w steps h
+  simp only [Step.apply, hargs, ha]
+
+example : ∀ st ∈ ([Step.update 0 exPop, Step.spawn 0] : List (Step ℝ Int)), ∀ i a, st ≠ Step.setArg i a := by
+  intro st hst i a
+  simp only [List.mem_cons, List.mem_nil_iff, or_false] at hst
+  rcases hst with rfl | rfl <;> exact fun h => by cases h
+
+/-- **computeParams_refresh.**  After `strategy.lambda_ = lam; strategy.computeParams(params)` the next update is
+computed with the refreshed parameters only: it is the update of the state whose `mu`, weights, `mueff` and
+learning rates are `computeParams dim lam params`, whatever parameters (and `lambda_`) the strategy had before —
+no value derived from the old `lambda_` survives.  Under the guard the new covariance matrix is the published
+expression with the refreshed `c_1`, `c_μ`, `c_c` and weights. -/
+theorem computeParams_refresh {K : Type} [LT K] [DecidableLT K]
+    (eigh : List (List ℝ) → List ℝ × List (List ℝ)) (argsort : List ℝ → List Nat)
+    (s : State ℝ) (lam : Nat) (o : Over ℝ) (pop : List (K × List ℝ)) :
+    let p := computeParams s.dim lam o
+    let s1 := relambda s lam o
+    let s' := update eigh argsort s1 pop
+    s'.par = p ∧ s'.lambda_ = lam ∧
+    (∀ (p0 : Params ℝ) (l0 : Nat),
+      update eigh argsort (relambda { s with par := p0, lambda_ := l0 } lam o) pop = s') ∧
+    (WellPosed s1 → ∑ i : Fin p.mu, vget p.weights i.val = 1 →
+      ∀ a b : Fin s.dim,
+        let xs := selectBest p.mu pop
+        let r := updateSpec s1 xs
+        mget s'.C a.val b.val
+          = (1 - p.ccov1 - p.ccovmu) * mget s.C a.val b.val
+            + p.ccov1 * (vget r.pc a.val * vget r.pc b.val + (1 - r.hsig) * p.cc * (2 - p.cc) * mget s.C a.val b.val)
+            + p.ccovmu * ∑ i : Fin p.mu, vget p.weights i.val
+                * ((mget xs i.val a.val - vget s.centroid a.val) / s.sigma
+                   * ((mget xs i.val b.val - vget s.centroid b.val) / s.sigma))) := by
+  intro p s1 s'
+  refine ⟨rfl, rfl, fun _ _ => rfl, ?_⟩
+  intro hwp hw a b xs r
+  have h := (update_eq_published eigh argsort s1 pop hwp hw).2.2.2.1
+  have hC : s'.C = r.C := h
+  rw [hC]
+  exact spec_C s1 xs a b
+
+/-- the parameters of the example below: `mu = 2`, user-supplied `cs = 1/2`, `damps = 1` -/
+noncomputable def exOver : Over ℝ := { mu := some 2, scheme := .equal, cs := some (1 / 2), damps := some 1 }
+
+example : WellPosed (relambda exState 6 exOver) ∧
+    ∑ i : Fin (computeParams exState.dim 6 exOver).mu, vget (computeParams exState.dim 6 exOver).weights i.val = 1 := by
+  refine ⟨⟨by norm_num [relambda, exState], by norm_num [relambda, exState], ?_, ?_, ?_, ?_⟩, ?_⟩
+  · show 0 < (computeParams exState.dim 6 exOver).cs
+    norm_num [computeParams, exOver]
+  · show (computeParams exState.dim 6 exOver).cs < 2
+    norm_num [computeParams, exOver]
+  · show (computeParams exState.dim 6 exOver).damps ≠ 0
+    norm_num [computeParams, exOver]
+  · show ∀ k : Fin 2, 0 < vget [(1 : ℝ), 2] k.val
+    intro k; fin_cases k <;> norm_num [vget]
+  · exact (weights_pos_noninc_sum1 exState.dim 6 exOver (by show 1 ≤ 2; decide)).2.2.2
+
 end C13
